@@ -44,6 +44,8 @@ CONSTANTS
   MCHows = {hows}
   Plans <- {plans}
   RPlans <- MCRPlans
+  RModes <- MCRModes
+  MCRModeSet = {rmodes}
   InitVid = 2
   Policers = {policers}
   PPlans <- MCPPlans
@@ -53,16 +55,19 @@ CHECK_DEADLOCK FALSE
 """
 
 
+SLIM = ("tid", "plan", "rplan", "rmode", "pplan", "vid0", "ev")
+
+
 def tset(xs):
     return "{" + ", ".join(json.dumps(x) if isinstance(x, str) else str(x) for x in xs) + "}"
 
 
-def gen_schedules(ctx, name, writers, readers, ntxn, nreads, hows, eager, plans="MCPlans", policers=()):
+def gen_schedules(ctx, name, writers, readers, ntxn, nreads, hows, eager, plans="MCPlans", policers=(), rmodes=("latest",)):
     """Edge cover of the (reduced) state graph: one schedule per maximal emitted path."""
     cfg = ctx.cfg(name, GEN_CFG.format(writers=tset(writers), readers=tset(readers), ntxn=ntxn, nreads=nreads,
-                                       hows=tset(hows), plans=plans, eager=eager, policers=tset(policers)))
+                                       hows=tset(hows), plans=plans, eager=eager, policers=tset(policers), rmodes=tset(rmodes)))
     raw = ctx.generate("Gen_WriterAdmission", cfg, tag="SCH", deadlock=False)
-    items = sorted({(json.dumps([x["p"], x["rp"], x["pp"]]), x["s"]) for x in raw})
+    items = sorted({(json.dumps([x["p"], x["rp"], x["rm"], x["pp"]]), x["s"]) for x in raw})
     keep = []
     for i, (p, s) in enumerate(items):
         if i + 1 < len(items) and items[i + 1][0] == p and items[i + 1][1].startswith(s):
@@ -109,8 +114,8 @@ def stats(traces, ctx):
 
 def replay_job(tr):
     """Everything --replay needs: the plan and the exact schedule that was run."""
-    return {"tid": "replay", "plan": tr["plan"], "rplan": tr["rplan"], "pplan": tr.get("pplan", []), "mode": tr["mode"], "zclass": tr.get("zclass", "versioned"),
-            "policy": ["list", [int(c) for c in tr.get("sched", "")]]}
+    return {"tid": "replay", "plan": tr["plan"], "rplan": tr["rplan"], "rmode": tr.get("rmode", []), "pplan": tr.get("pplan", []),
+            "mode": tr["mode"], "zclass": tr.get("zclass", "versioned"), "policy": ["list", tr.get("ran", [])]}
 
 
 def run(ctx):
@@ -151,11 +156,12 @@ def run(ctx):
     else:
         # ---------------------------------------------------------------- 1. the specification
         if quick:
-            cfgs = ["MC_WriterAdmission_quick.cfg", "MC_WriterAdmission_quick_pol.cfg", "MC_WriterAdmission_live_quick.cfg",
+            cfgs = ["MC_WriterAdmission_quick.cfg", "MC_WriterAdmission_quick_byid.cfg", "MC_WriterAdmission_live_quick.cfg",
                     "MC_WriterAdmission_live_quick2.cfg"]
         else:
             cfgs = ["MC_WriterAdmission_thorough3.cfg", "MC_WriterAdmission_live.cfg", "MC_WriterAdmission_thorough4.cfg",
                     "MC_WriterAdmission_thorough.cfg", "MC_WriterAdmission_thorough2.cfg", "MC_WriterAdmission_thorough_pol.cfg",
+                    "MC_WriterAdmission_thorough_byid.cfg", "MC_WriterAdmission_quick_byid.cfg",
                     "MC_WriterAdmission_live_quick.cfg", "MC_WriterAdmission_live_quick2.cfg"]
         if os.environ.get("VERIF_C12_SKIP_MODEL"):  # development aid for mutation runs only (the spec is unchanged)
             cfgs = ["MC_WriterAdmission_live_quick2.cfg"]
@@ -167,13 +173,14 @@ def run(ctx):
         sch = gen_schedules(ctx, "genA.cfg", [1, 2, 3], [5], 1, 1, ["commit", "rollback"], "EagerA",
                             plans="MCPlansLive" if mini else "MCPlansSym" if quick else "MCPlans")
         if not mini:
-            sch += gen_schedules(ctx, "genP.cfg", [1, 2], [5], 1, 1, ["commit", "rollback"], "EagerA", plans="MCPlansLive", policers=[7])
+            sch += gen_schedules(ctx, "genP.cfg", [1, 2], [5], 1, 2, ["commit", "rollback"], "EagerA", plans="MCPlansCommit",
+                                 policers=[7], rmodes=("byid", "byinit") if not quick else ("byid",))
         if not quick:
             sch += gen_schedules(ctx, "genB.cfg", [1, 2, 3], [5], 1, 1, ["commit", "rollback", "empty"], "EagerA", plans="MCPlansSym")
             sch += gen_schedules(ctx, "genC.cfg", [1, 2], [5], 2, 1, ["commit", "rollback"], "EagerA", plans="MCPlansLive")
             sch += gen_schedules(ctx, "genD.cfg", [1, 2, 3, 4], [5], 1, 1, ["commit", "rollback"], "EagerA", plans="MCPlansLive")
-        jobs = [{"tid": "g%d" % i, "plan": p, "rplan": rp, "pplan": pp, "mode": "ops", "policy": ["list", [int(c) for c in s]]}
-                for i, (p, rp, pp, s) in enumerate(sch)]
+        jobs = [{"tid": "g%d" % i, "plan": p, "rplan": rp, "rmode": rm, "pplan": pp, "mode": "ops", "policy": ["list", [int(c) for c in s]]}
+                for i, (p, rp, rm, pp, s) in enumerate(sch)]
         if not quick:  # the same protocol through the B-tree zone class (it inherits writer())
             jobs += [dict(j, tid="b" + j["tid"], zclass="btree") for j in jobs[::11]]
         out = ctx.pmap(drv.run_job, jobs)
@@ -185,22 +192,45 @@ def run(ctx):
             ctx.sample({"tid": tr["tid"], "plan": tr["plan"], "rplan": tr["rplan"], "schedule": tr.get("sched"),
                         "events": [[e["t"], e["op"], e["o"]] for e in tr["ev"]], "first_event": tr["ev"][0]})
         # ---------------------------------------------------------------- 3. code -> spec, line level
-        plans = [([["commit"], ["rollback"], ["commit"]], [1], []), ([["commit"], ["commit"]], [1], [2, 1])]
+        # (plan, rplan, rmode, pplan)
+        plans = [([["commit"], ["rollback"], ["commit"]], [1], ["latest"], []),
+                 ([["commit"], ["commit"]], [2], ["byid"], [3, 1])]
         if mini:
             plans = plans[:1]
         if not quick:
-            plans += [([["rollback"], ["commit"], ["rollback"]], [1], []), ([["commit", "rollback"], ["commit", "commit"]], [1], []),
-                      ([["empty"], ["commit"], ["rollback"]], [0, 1], [])]
+            plans += [([["rollback"], ["commit"], ["rollback"]], [1], ["latest"], []),
+                      ([["commit", "rollback"], ["commit", "commit"]], [1], ["latest"], []),
+                      ([["empty"], ["commit"], ["rollback"]], [0, 1], ["latest", "latest"], []),
+                      ([["commit"], ["commit"]], [1], ["byinit"], [2, 1])]
         bjobs = []
-        for pi, (plan, rplan, pplan) in enumerate(plans):
+        for pi, (plan, rplan, rmode, pplan) in enumerate(plans):
             tids = [i + 1 for i, h in enumerate(plan) if h] + [5 + i for i, n in enumerate(rplan) if n] + ([7] if pplan else [])
-            for prio in itertools.permutations(tids):
-                base = {"tid": "p%d.%s" % (pi, "".join(map(str, prio))), "plan": plan, "rplan": rplan, "pplan": pplan, "mode": "lines",
-                        "policy": ["pre", list(prio), []]}
+            perms = list(itertools.permutations(tids))
+            if quick and len(tids) > 3 and pi > 0:
+                perms = perms[::3]  # 8 of the 24 priority orders of the 4-thread by-id/policy plan
+            for prio in perms:
+                base = {"tid": "p%d.%s" % (pi, "".join(map(str, prio))), "plan": plan, "rplan": rplan, "rmode": rmode,
+                        "pplan": pplan, "mode": "lines", "policy": ["pre", list(prio), []]}
                 bjobs.append({"tid": base["tid"], "base": base, "k": 1, "kinds": None})
+        # a targeted sub-family of k = 2: the first deviation inside the pruning / commit / reader-registration code
+        # (a thread is switched out in the middle of the retention bookkeeping), the second at an API return of
+        # another thread (it is switched out while it still holds its transaction).  This is where "a reader opened BY
+        # ID pins a version that a concurrent prune then drops" lives; readers open by id under the default and under a
+        # multi-version policy.
+        RET = ["_prune_versions_unlocked", "_commit_version", "_commit_version_unlocked", "_end_read", "set_pruning_policy", "reader"]
+        API = ["ropen", "rread", "rclosed", "returned", "body", "ended", "policyset"]
+        for pi, (plan, rplan, rmode, pplan) in enumerate([([["commit"], ["commit"]], [1], ["byinit"], []),
+                                                          ([["commit"], ["commit"]], [1], ["byinit"], [3]),
+                                                          ([["commit"]], [2], ["byid"], [2])][:1 if mini else 3]):
+            tids = [i + 1 for i, h in enumerate(plan) if h] + [5] + ([7] if pplan else [])
+            for prio in itertools.permutations(tids):
+                base = {"tid": "t%d.%s" % (pi, "".join(map(str, prio))), "plan": plan, "rplan": rplan, "rmode": rmode,
+                        "pplan": pplan, "mode": "lines", "policy": ["pre", list(prio), []]}
+                bjobs.append({"tid": base["tid"], "base": base, "k": 2, "kinds": None,
+                              "levels": [{"kinds": ["line"], "funcs": RET}, {"kinds": API}]})
         if not quick:
             # k = 2: every pair of deviations, below every first deviation of three priority orders
-            plan, rplan, _ = plans[0]
+            plan, rplan, _, _ = plans[0]
             for prio in ([1, 2, 3, 5], [3, 5, 2, 1], [2, 1, 5, 3]):
                 base = {"tid": "q.%s" % "".join(map(str, prio)), "plan": plan, "rplan": rplan, "mode": "lines",
                         "policy": ["pre", list(prio), []]}
@@ -219,12 +249,14 @@ def run(ctx):
         ctx.log("executed %d preemption-bounded line-level schedules (%d new distinct traces)" % (nb, len(seen) - before))
         # seeded random line-level schedules (also 4 writers / 2 transactions / 2 readers)
         nrand = 150 if mini else 400 if quick else 6000
-        rplans = [([["commit"], ["rollback"], ["commit"]], [1], []), ([["commit", "commit"], ["rollback", "commit"]], [2], [2, 0, 1]),
-                  ([["commit"], ["commit"], ["rollback"], ["commit"]], [1, 1], []), ([["empty"], ["commit"], ["commit"]], [1], [3, 1])]
+        rplans = [([["commit"], ["rollback"], ["commit"]], [1], ["latest"], []),
+                  ([["commit", "commit"], ["rollback", "commit"]], [2], ["byid"], [2, 0, 1]),
+                  ([["commit"], ["commit"], ["rollback"], ["commit"]], [1, 2], ["latest", "byinit"], []),
+                  ([["empty"], ["commit"], ["commit"]], [2], ["byinit"], [3, 1])]
         rjobs = []
         for i in range(nrand):
-            plan, rplan, pplan = rplans[i % len(rplans)]
-            rjobs.append({"tid": "r%d" % i, "plan": plan, "rplan": rplan, "pplan": pplan, "mode": "lines",
+            plan, rplan, rmode, pplan = rplans[i % len(rplans)]
+            rjobs.append({"tid": "r%d" % i, "plan": plan, "rplan": rplan, "rmode": rmode, "pplan": pplan, "mode": "lines",
                           "policy": ["rand", ctx.seed * 1000003 + i, (0.05, 0.15, 0.4)[i % 3]]})
         before = len(seen)
         out = ctx.pmap(drv.run_job, rjobs)
@@ -239,17 +271,32 @@ def run(ctx):
     ctx.evaluations = runs
     ctx.distinct = {key_of(tr) for tr in traces if any(e["op"] == "wait" for e in tr["ev"])}
     ctx.extra["distinct_traces"] = len(traces)
-    slim = [{"tid": tr["tid"], "plan": tr["plan"], "rplan": tr["rplan"], "pplan": tr["pplan"], "vid0": tr["vid0"], "ev": tr["ev"]}
-            for tr in traces]
+    slim = [{k: tr[k] for k in SLIM} for tr in traces]
     by_tid = {tr["tid"]: tr for tr in traces}
     rejects = ctx.validate("Trace_WriterAdmission", "Trace_WriterAdmission.cfg", slim)
-    for s, line, clause in rejects:
+    ctx.extra["traces_with_timed_wait_expired"] = sum(1 for tr in traces if any(e["op"] == "wait_timeout" for e in tr["ev"]))
+    ctx.extra["traces_with_reader_by_id"] = sum(1 for tr in traces if any(m != "latest" for m in tr["rmode"])
+                                                and any(e["op"] in ("ropen", "rfail") for e in tr["ev"]))
+    ctx.extra["traces_with_reader_refused"] = sum(1 for tr in traces if any(e["op"] == "rfail" for e in tr["ev"]))
+
+    def report(s, line, clause, oracle):
         tr = by_tid[s["tid"]]
         sig = classify(tr, line, clause)
         e = tr["ev"][line - 1] if line else {}
-        ctx.violation(clause, sig, "plan=%s mode=%s schedule=%s event %s: %s" % (
-            json.dumps(tr["plan"]), tr["mode"], tr.get("sched", "")[:80], line, json.dumps(e)[:300]),
-            {"job": replay_job(tr), "line": line, "trace": tr["ev"]})
+        ctx.violation(clause, sig, "[%s] plan=%s readers=%s/%s policy=%s mode=%s schedule=%s event %s: %s" % (
+            oracle, json.dumps(tr["plan"]), tr["rplan"], tr["rmode"], tr["pplan"], tr["mode"], tr.get("sched", "")[:80], line,
+            json.dumps(e)[:300]), {"job": replay_job(tr), "line": line, "oracle": oracle, "trace": tr["ev"]})
+
+    for s, line, clause in rejects:
+        report(s, line, clause, "protocol")
+    if rejects:
+        # second, protocol-independent oracle on the rejected traces: report the consequence for the property
+        # (deadlock / lost wake-up, mutual exclusion, serial equivalence, pinned version dropped, ...) as well
+        bad = [s for s, _, _ in rejects]
+        n0 = ctx.traces
+        for s, line, clause in ctx.validate("Trace_WriterOutcome", "Trace_WriterOutcome.cfg", bad):
+            report(s, line, clause, "outcome")
+        ctx.traces = n0  # the same traces, judged a second time
 
 
 def selftest(ctx):
@@ -276,7 +323,7 @@ def selftest(ctx):
         tr = copy.deepcopy(good)
         tr["tid"] = name
         f(tr["ev"])
-        return {k: tr[k] for k in ("tid", "plan", "rplan", "pplan", "vid0", "ev")}
+        return {k: tr[k] for k in SLIM}
 
     def first(ev, op, nth=1):
         return [e for e in ev if e["op"] == op][nth - 1]
